@@ -67,6 +67,7 @@ func init() {
 					c.Gates[r.Name] = obs.Yield
 				}
 			}
+			genPrior(t, c)
 			return c
 		},
 		Check: func(ci interface{}, x *Ctx) {
